@@ -850,7 +850,12 @@ class BasicZoneProcessor: public ZoneProcessor {
         basic::Transition& transition = mTransitions[i];
         const int16_t year = transition.yearTiny + LocalDate::kEpochYear;
 
-        if (transition.rule.isNull()) {
+        if (transition.rule.isNull()
+            || transition.era.zoneEra() != prevTransition->era.zoneEra()) {
+          // The first Transition of a new ZoneEra starts when the previous
+          // ZoneEra ends (00:00 on Jan 1 since UNTIL is a whole year), not on
+          // the day of the prior ZoneRule which was shifted into January.
+          //
           // If the transition is simple (has no named rule), then the
           // ZoneEra applies for the entire year (since BasicZoneProcessor
           // supports only whole year in the UNTIL field). The whole year UNTIL
